@@ -119,12 +119,15 @@ def execute(name, ops, dtv):
     err = None
     for op in ops:
         if op[0] == 'run':
-            _, n, du, tu = op
+            _, n, du, tu = op[:4]
+            open_loop = len(op) > 4 and op[4] == 'open'      # this run is given no motor control although the model has one
             dt = [si.convert(dtv, 'TimeInterval', 'sec', du), du]
             T = [si.convert(dtv * n, 'TimeInterval', 'sec', tu), tu]
             try:
-                if ctl is not None:
+                if ctl is not None and not open_loop:
                     m.run(dt, T, control=ctl)
+                elif ctl is not None:
+                    m.run(dt, T)
                 else:
                     m.run(dt, T, duty=duty)
             except Exception as e:
@@ -211,9 +214,12 @@ def check_continuation(acc, name, dtv, ns, units, newsolver=False):
         acc.violation(f'C12/continuation/{d[0]}/{unit_tag}/{binary}', 'run n1 + continue n2 == run n1+n2', case, d[1])
 
 
-def check_reset(acc, name, dtv, ns, newsolver):
-    case = {'kind': 'reset', 'model': name, 'dt': dtv, 'ns': list(ns), 'newsolver': newsolver}
+def check_reset(acc, name, dtv, ns, newsolver, mixed=False):
+    case = {'kind': 'reset', 'model': name, 'dt': dtv, 'ns': list(ns), 'newsolver': newsolver, 'mixed': mixed}
     S = [('run', n, 'sec', 'sec') for n in ns]
+    if mixed:
+        # the first run of the schedule is open loop (no motor control passed), the later ones are controlled
+        S[0] = S[0] + ('open',)
     ops = S + [('reset',)] + ([('newsolver',)] if newsolver else []) + S
     segs, err, m = execute(name, ops, dtv)
     acc.executions += 2
@@ -225,7 +231,7 @@ def check_reset(acc, name, dtv, ns, newsolver):
     d = compare(first, second, exact=True)
     held = ended_held(first)
     pwm0 = first['el'][0]['pwm'][0]
-    tag = ('new-solver' if newsolver else 'same-solver') + ('/ended-held' if held else '/ended-moving') + \
+    tag = ('new-solver' if newsolver else 'same-solver') + ('/open-loop-then-controlled' if mixed else '') + ('/ended-held' if held else '/ended-moving') + \
           ('/pwm0-differs-from-initial' if pwm0 != model_spec(name)[0].get('declared_pwm', 1) else '/pwm0-initial')
     acc.outcomes[('reset', tag, 'equal' if d is None else d[0])] += 1
     if d is not None:
@@ -266,6 +272,9 @@ def run_shard(shard, tier):
                     check_reset(acc, name, dtv, (n1, n2), newsolver)
                     acc.nstates += 1
                     acc.cases += 1
+                    if isinstance(model_spec(name)[1], str):
+                        check_reset(acc, name, dtv, (n1, n2), newsolver, mixed=True)
+                        acc.nstates += 1
         acc.sample({'model': name, 'dt_s': dtv, 'schedule': '[run 4, run 3, reset, re-init, (new solver,) run 4, run 3]'})
     return acc
 
@@ -275,7 +284,7 @@ def replay(case):
     if case.get('kind') == 'cont':
         check_continuation(acc, case['model'], case['dt'], tuple(case['ns']), tuple(case['units']), newsolver=case.get('newsolver', False))
     elif case.get('kind') == 'reset':
-        check_reset(acc, case['model'], case['dt'], tuple(case['ns']), case['newsolver'])
+        check_reset(acc, case['model'], case['dt'], tuple(case['ns']), case['newsolver'], mixed=case.get('mixed', False))
     else:
         return run_shard(case['shard'], 'quick').violations
     return acc.violations
